@@ -5,7 +5,7 @@
    done-callbacks, publisher signals, and the close sweep at any position. *)
 From Coq Require Import Arith NArith List Bool Init.Byte.
 From RSV Require Import gen.GenConst lib.Bytes model.Frame model.Fragmenter model.StreamIds model.Endpoint
-     proofs.EndpointProofs proofs.EndpointSignals.
+     proofs.EndpointProofs proofs.EndpointSignals proofs.EndpointSubscribe proofs.EndpointKinds proofs.EndpointSweep.
 Import ListNotations.
 Open Scope N_scope.
 
@@ -60,6 +60,25 @@ Theorem C07_terminal_at_most_once first ls oid : no_late (ep_init first) ls oid 
   ok_sigs (dsigs oid (concat (snd (ep_run (ep_init first) ls)))).
 Proof. exact (subscriber_terminal_at_most_once first ls oid). Qed.
 Print Assumptions C07_terminal_at_most_once.
+
+(* for request-stream requesters (every object that is not a channel) the premise is vacuous: at most one terminal
+   signal and nothing after it over EVERY history from any reachable state *)
+Theorem C07_stream_terminal_at_most_once : forall ls e oid o, Inv e -> nth_error (objs e) oid = Some o ->
+  is_chan (o_kind o) = false -> ok_sigs (dsigs oid (concat (snd (ep_run e ls)))).
+Proof. exact rs_terminal_at_most_once. Qed.
+Print Assumptions C07_stream_terminal_at_most_once.
+
+(* on_subscribe comes first: over EVERY history the first signal a subscriber is ever given is on_subscribe *)
+Theorem C07_on_subscribe_first : forall first ls oid,
+  match sigs oid (concat (snd (ep_run (ep_init first) ls))) with [] => True | s :: _ => s = SSubscribe end.
+Proof. exact on_subscribe_comes_first. Qed.
+Print Assumptions C07_on_subscribe_first.
+
+(* the whole close sweep, from every reachable state: exactly the per-kind effects of every stream registered at that
+   moment, judged by its state at that moment, oldest registration first; nothing else *)
+Theorem C07_close_sweep_complete : forall u e, Inv e -> snd (ep_step u e LClose) = sweep_of e (rev (table e)).
+Proof. exact close_sweep_complete. Qed.
+Print Assumptions C07_close_sweep_complete.
 
 (* non-vacuity: element, completion, then loss of the connection; the premise holds and close adds nothing *)
 Theorem C07_example :
